@@ -332,7 +332,25 @@ func recipeCause(r *Recipe) (container, cause string) {
 		}
 	}
 	many := recipeHasManyPartTracks(r)
+	long := false
+	for _, s := range r.Streams {
+		if s.Container != "mpegts" {
+			continue
+		}
+		for _, g := range s.Segments {
+			per := map[int]int{}
+			for _, e := range g.Events {
+				per[e.Track]++
+				if per[e.Track] > 100 {
+					long = true
+				}
+			}
+		}
+	}
 	switch {
+	case long && !unsup && !zero && !many:
+		cause = "more-than-100-units-of-a-track-per-segment"
+		container = "mpegts"
 	case many && !unsup && !zero:
 		cause = "more-than-10-part-tracks-per-segment"
 		container = "fmp4"
@@ -363,6 +381,10 @@ func signature(r *Recipe, rr *runResult) string {
 		}
 		return fmt.Sprintf("C13:%s:%s:%s", container, cause, site)
 	case "hang":
+		if r.CloseAt >= 0 || r.CloseAfterDataMS > 0 {
+			// the harness called Close() by plan and Wait() still did not return
+			return fmt.Sprintf("C13:%s:%s:hang:planned-close-not-honoured", container, cause)
+		}
 		return fmt.Sprintf("C13:%s:%s:hang", container, cause)
 	case "busy":
 		return fmt.Sprintf("C13:%s:%s:busy-loop", container, cause)
@@ -469,9 +491,9 @@ func (rn *runner) minimise(r *Recipe, rr runResult) (*Recipe, runResult) {
 				continue
 			}
 		}
-		if cur.CloseAt >= 0 || cur.OnTracksErr {
+		if cur.CloseAt >= 0 || cur.OnTracksErr || cur.CloseAfterDataMS > 0 {
 			c := cloneRecipe(cur)
-			c.CloseAt, c.OnTracksErr = -1, false
+			c.CloseAt, c.OnTracksErr, c.CloseAfterDataMS = -1, false, 0
 			if try(c) {
 				progress = true
 				continue
@@ -1002,7 +1024,7 @@ func main() {
 
 		// the model comparison: content recipes with at most one fault, no planned Close,
 		// a primary playlist that parses
-		compare := r.Kind == "content" && r.CloseAt < 0 && d.abs != nil && d.abs.PrimaryErr == "" &&
+		compare := r.Kind == "content" && r.CloseAt < 0 && r.CloseAfterDataMS == 0 && d.abs != nil && d.abs.PrimaryErr == "" &&
 			(d.rr.Class == "eos" || d.rr.Class == "err" || d.rr.Class == "panic" || d.rr.Class == "stall")
 		if compare {
 			if shard == nil || inShard >= shardSize {
